@@ -67,7 +67,16 @@ def split_offset(e, var):
 class Kernel:
     """Abstract interpretation of one kernel body."""
 
+    CANON_PARAMS = ["wave", "index", "subindex", "sincs", "length"]
+
     def __init__(self, fn, label, pack_width, scalar=False):
+        # parameters are identified by position (wave, index, subindex[, sincs, length]); the analysis reads them under those names
+        pn = [p["name"] for p in fn["params"] if p.get("name")]
+        ren = {a: ir.path(c) for a, c in zip(pn, self.CANON_PARAMS) if a != c}
+        if ren and not (set(c["p"] for c in ren.values()) & set(pn)):
+            fn = dict(fn)
+            fn["body"] = ir.subst(fn["body"], ren)
+            fn["params"] = [dict(p, name=(ren[p["name"]]["p"] if p.get("name") in ren else p.get("name"))) for p in fn["params"]]
         self.fn = fn
         self.label = label
         self.pack_w = pack_width
@@ -123,6 +132,10 @@ class Kernel:
             base = self.eval(e["e"], in_loop)
             if base[0] == "array" and lit_int(e["i"]) is not None:
                 return ("scalar", base[1][lit_int(e["i"])])
+            if base[0] in ("wchunk", "schunk") and lit_int(e["i"]) is not None:
+                if not 0 <= lit_int(e["i"]) < self.trip_div:
+                    raise LaneError("index %s outside the chunk of %d" % (show(e), self.trip_div))
+                return ("wptr" if base[0] == "wchunk" else "sptr", lit_int(e["i"]))
             raise LaneError("indexing %s" % show(e))
         if k == "bin" and e["op"] == "+":
             a, b = self.eval(e["l"], in_loop), self.eval(e["r"], in_loop)
@@ -263,7 +276,8 @@ class Kernel:
                 if e is not None and e.get("k") == "unsafe":
                     body = e["body"]["stmts"]
             if body is None:
-                raise LaneError("scalar kernel: unsafe block not found")
+                # a scalar kernel written in safe code: the loop is among the function's own statements
+                body = [s for s in stmts if not (s["k"] == "let" and s["pat"]["k"] == "pident" and (s["pat"]["name"] in self.env))]
             stmts = body
         self.wvar = self.svar = None
         for s in stmts:
@@ -322,8 +336,39 @@ class Kernel:
             return True
         return False
 
+    def zipped_chunks(self, loop):
+        """`for (w, s) in WINDOW.chunks_exact(W).zip(ROW.chunks_exact(W))`: iteration i sees samples [W·i, W·i+W) of both, indexed w[k] / s[k];
+        the trip count is len/W (chunks_exact drops a shorter tail).  Returns True when the loop has this form."""
+        it = loop["iter"]
+        if not (it.get("k") == "mcall" and it["name"] == "zip" and len(it["args"]) == 1):
+            return False
+
+        def chunked(x):
+            if x.get("k") == "mcall" and x["name"] == "chunks_exact" and len(x["args"]) == 1 and lit_int(x["args"][0]) is not None and is_path(x["recv"]) and x["recv"]["p"] in self.env:
+                return self.env[x["recv"]["p"]][0], lit_int(x["args"][0]), x["recv"]["p"]
+            return None
+        ca, cb = chunked(it["recv"]), chunked(it["args"][0])
+        pat = loop["pat"]
+        if not (ca and cb and {ca[0], cb[0]} == {"window", "row"} and ca[1] == cb[1] and pat.get("k") == "ptuple" and len(pat["elems"]) == 2
+                and all(p_.get("k") == "pident" for p_ in pat["elems"])):
+            return False
+        n0, n1 = pat["elems"][0]["name"], pat["elems"][1]["name"]
+        wn, sn = (n0, n1) if ca[0] == "window" else (n1, n0)
+        wsrc = ca[2] if ca[0] == "window" else cb[2]
+        self.env[wn] = ("wchunk",)
+        self.env[sn] = ("schunk",)
+        self.trip_div = ca[1]
+        self.trip_src = "%s.len()" % wsrc
+        self.wvar, self.svar = "<chunk base of %s>" % wn, "<chunk base of %s>" % sn
+        self.strides = {self.wvar: ca[1], self.svar: ca[1]}
+        return True
+
     def do_loop(self, loop):
         it = loop["iter"]
+        names = ir.pat_names(loop["pat"])
+        body = loop["body"]["stmts"]
+        if self.zipped_chunks(loop):
+            return self.loop_body(body, {}, preset=True)
         if it.get("k") != "range" or it.get("incl") or lit_int(it.get("lo")) != 0:
             raise LaneError("loop is not 0..N")
         hi = it["hi"]
@@ -331,8 +376,6 @@ class Kernel:
             raise LaneError("trip count %s is not N / const" % show(hi))
         self.trip_div = lit_int(hi["r"])
         self.trip_src = nbit(hi["l"])
-        names = ir.pat_names(loop["pat"])
-        body = loop["body"]["stmts"]
         ivars = [n for n, v in self.env.items() if v[0] == "ivar"]
         # induction variables: explicit counters updated with `+= c`, or the loop variable
         incs = {}
@@ -355,6 +398,10 @@ class Kernel:
         if len(uses_w) != 1 or len(uses_s) != 1:
             raise LaneError("cannot identify waveform/filter induction variables (%s / %s)" % (uses_w, uses_s))
         self.wvar, self.svar = uses_w.pop(), uses_s.pop()
+        return self.loop_body(body, incs)
+
+    def loop_body(self, body, incs, preset=False):
+        loop = {"body": {"stmts": body}}
         # seed accumulators with markers
         acc_names = []
         for s in body:
@@ -537,7 +584,10 @@ def check_kernel(rep, R, kz, want_bounds=False):
         pv = getattr(kz, "pack_view", (False, "not analysed"))
         ob("pack-view", pv[0], "the packed table holds the taps of make_sincs unchanged: %s" % pv[1])
     w = kz.window
-    wok = w is not None and not w.get("incl") and nbit(w["lo"]) == "index" and nbit(w["hi"]) in ("(index + length)", "(length + index)", "(index + self.sincs[subindex].len())")
+    his = ["(index + length)", "(length + index)", "(index + self.sincs[subindex].len())"]
+    if getattr(kz, "row", None) and kz.row.get("checked") and nbit(kz.row["index"]) == "subindex":
+        his.append("(index + %s.len())" % kz.row["name"])       # `let sinc = &self.sincs[subindex]` bound before the window is cut
+    wok = w is not None and not w.get("incl") and nbit(w["lo"]) == "index" and nbit(w["hi"]) in his
     ob("reads", wok, "the waveform is accessed only through %s = &wave[%s..%s] (must be index..index+length)" % (w and w["name"], w and show(w["lo"]), w and show(w["hi"])))
     # all loads inside [0,8)
     inb = all(0 <= off and off + width <= W8 for _, off, width in kz.loads) if not kz.scalar else all(0 <= o <= 7 for o in offs)
